@@ -50,6 +50,8 @@ func (c *fnCtx) contractEnv(f *ssa.Function, args []*Val, results []*Val, st, ol
 		extRecv = ct.HasRecv && f.Signature.Recv() != nil
 	}
 	lk := func(name string) (tv, bool) {
+		// entry_<param> is the parameter itself in a function contract (args are the values at the call / on entry)
+		name = strings.TrimPrefix(name, "entry_")
 		for i, p := range f.Params {
 			if p.Name() == name && i < len(args) {
 				return tv{v: args[i], t: p.Type()}, true
@@ -432,5 +434,9 @@ func (c *fnCtx) anchoredAsserts(in ssa.Instruction, name string, cc *ssa.CallCom
 		o.Name = fmt.Sprintf("%s#assert:%s%d:%s", o.Fn, name, ord, shortText(fmt.Sprintf("a%d %s", ai, as.Expr.Src)))
 		c.obls = append(c.obls, o)
 		c.assertHit[ai] = true
+		// assert, then assume: what follows may use the asserted fact (it is reported when it does not hold)
+		if c.curB != nil {
+			c.reach[c.curB] = c.em.define("ok", "Bool", "(and "+o.Guard+" "+f+")")
+		}
 	}
 }
